@@ -1,9 +1,9 @@
 package main
 
 import (
-	"go/types"
-	"go/token"
 	"fmt"
+	"go/token"
+	"go/types"
 	"strings"
 
 	"golang.org/x/tools/go/ssa"
@@ -253,7 +253,9 @@ func runC03(c *Ctx) {
 	if att := c.Anchor("O3", "pkg/scheduler/actions/allocate", "", "attemptToAllocateJob"); att != nil {
 		paths := fx.retPaths(att, 0, WantTrue)
 		for i, rp := range paths {
-			_, notPipe := hasFact(rp.Facts, func(f Fact) bool { return !f.Pol && f.T.Op == "call" && f.T.Fn != nil && f.T.Fn.Name() == "ShouldPipelineJob" })
+			_, notPipe := hasFact(rp.Facts, func(f Fact) bool {
+				return !f.Pol && f.T.Op == "call" && f.T.Fn != nil && f.T.Fn.Name() == "ShouldPipelineJob"
+			})
 			_, conv := hasFact(rp.Facts, func(f Fact) bool {
 				return factNilOf(f, true, func(t *Term) bool { return t.Fn != nil && t.Fn.Name() == "ConvertAllAllocatedToPipelined" })
 			})
@@ -267,7 +269,9 @@ func runC03(c *Ctx) {
 		c.Analysed(funcKey(solve))
 		paths := fx.retPaths(solve, 0, WantTrue)
 		for i, rp := range paths {
-			_, gang := hasFact(rp.Facts, func(f Fact) bool { return f.Pol && f.T.Op == "call" && f.T.Fn != nil && f.T.Fn.Name() == "IsGangSatisfied" })
+			_, gang := hasFact(rp.Facts, func(f Fact) bool {
+				return f.Pol && f.T.Op == "call" && f.T.Fn != nil && f.T.Fn.Name() == "IsGangSatisfied"
+			})
 			_, grew := hasFact(rp.Facts, func(f Fact) bool {
 				// NOT (numActive <= original)  i.e.  original < numActive
 				return f.Pol && f.T.Op == "bin" && f.T.Name == "<" && termHas(f.T.Args[1], func(x *Term) bool { return x.Op == "call" && x.Fn != nil && x.Fn.Name() == "GetNumActiveUsedTasks" })
@@ -343,7 +347,9 @@ func runC03(c *Ctx) {
 			hasMin := func(t *Term) bool {
 				return termHas(t, func(x *Term) bool { return x.Op == "call" && x.Fn != nil && x.Fn.Name() == "GetMinAvailable" })
 			}
-			isAct := func(t *Term) bool { return t.Op == "call" && t.Fn != nil && t.Fn.Name() == "GetNumActiveAllocatedTasks" }
+			isAct := func(t *Term) bool {
+				return t.Op == "call" && t.Fn != nil && t.Fn.Name() == "GetNumActiveAllocatedTasks"
+			}
 			switch {
 			case f.T.Name == "<" && f.Pol, f.T.Name == ">=" && !f.Pol:
 				return hasMin(l) && isAct(r)
@@ -405,7 +411,9 @@ func runC03(c *Ctx) {
 		})
 		for _, pu := range pushes {
 			fs := fx.FactsAt(pu)
-			d, ok := hasFact(fs, func(f Fact) bool { return f.Pol && f.T.Op == "call" && f.T.Fn != nil && f.T.Fn.Name() == "IsActiveAllocatedStatus" })
+			d, ok := hasFact(fs, func(f Fact) bool {
+				return f.Pol && f.T.Op == "call" && f.T.Fn != nil && f.T.Fn.Name() == "IsActiveAllocatedStatus"
+			})
 			c.Check(ok, "O5", "DOM", funcKey(fn)+": only active-allocated pods are eviction candidates", instrPos(pu), d, "pods that are not active-allocated (e.g. already terminating) can be selected as victims: the victim count and the queue accounting of the eviction are wrong")
 		}
 		c.Floor("O5", "DOM victim pushes", len(pushes), 1)
@@ -485,7 +493,9 @@ func runC03Ready(c *Ctx) {
 			alive := func(x *Term) bool {
 				return x.contains(func(y *Term) bool { return isCallNamed(y, "GetNumAliveTasks") }) && !x.contains(func(y *Term) bool { return isCallNamed(y, "GetPodInfos") })
 			}
-			min := func(x *Term) bool { return strings.Contains(x.String(), "minAvailable") || isCallNamed(x, "GetMinAvailable") }
+			min := func(x *Term) bool {
+				return strings.Contains(x.String(), "minAvailable") || isCallNamed(x, "GetMinAvailable")
+			}
 			switch {
 			case alive(a) && min(b):
 				return (t.Name == "<" && !f.Pol) || (t.Name == ">=" && f.Pol)
